@@ -42,7 +42,7 @@ func genConcCase(rng *simrt.Rng, o *ConcOpts) *ConcCase {
 	resize := 0
 	var victims []int
 	if o.Resize && rng.Intn(3) == 0 {
-		resize = 1 + rng.Intn(2)
+		resize = 1 + rng.Intn(3)
 		cfg.InitCap = 0
 		if cfg.bounded() {
 			cfg.Bound = "size"
@@ -52,6 +52,20 @@ func genConcCase(rng *simrt.Rng, o *ConcOpts) *ConcCase {
 		n := 106 + rng.Intn(14) // grow threshold of the initial 32-bucket table is 120 entries
 		if resize == 2 {
 			n = 124 + rng.Intn(6) // grown once; then emptied towards the shrink threshold (2 entries)
+		}
+		if resize == 3 {
+			// a table of 128 buckets just below its grow threshold (480 entries): the growth during the
+			// run is copied by several goroutines (generator bias only - if the tree sizes its tables
+			// differently the run simply does not resize). A bounded cache gets a maximum just above the
+			// threshold, so that an entry the policy loses track of shows as an exceeded bound.
+			cfg.InitCap = 480
+			n = 468 + rng.Intn(12)
+			if cfg.bounded() {
+				cfg.Max = uint64(479 + rng.Intn(5))
+			}
+			if cfg.Parallelism < 2 {
+				cfg.Parallelism = 2 + rng.Intn(3)
+			}
 		}
 		for i := 0; i < n; i++ {
 			cc.Prefill = append(cc.Prefill, Op{Kind: "set", K: 100 + i, V: pg.newVal()})
